@@ -130,6 +130,8 @@ def _compare(spec, B, M, mroot, real_out, viol, staged):
         for i, val in enumerate(reads):
             if i < len(pr) and val not in pr[i]:
                 viol.append(("C07", "scoped-read", "task %s read #%d saw %r, sequential scoping allows %r" % (tok, i, val, sorted(pr[i]))))
+                if len(pr[i]) == 1:
+                    viol.append(("C01", "scoped-read", "task %s read #%d saw %r, sequential evaluation reads %r" % (tok, i, val, sorted(pr[i])[0])))
                 break
     if staged:
         real_comp = [(f["kind"], sorted(t for t in f["tokens"] if not t.startswith("x"))) for f in B.flushes if f["sched"]]
